@@ -15,9 +15,10 @@ Definition nowin (c : case) : bool := no_window (c_win c).
 (* which: 1 C01, 2 C02, 3 C03, 4 C04, 12 C12, 13 C13, 17 C17 *)
 Definition spec (which : Z) (c : case) (tr : list (list out)) : bool :=
   let st := steps_of c tr in
-  if which =? 1 then S01 st && S02 (c_cfg c) st
-  else if which =? 2 then S02 (c_cfg c) st
-  else if which =? 3 then S03 (c_cfg c) st
+  (* C01-C03 are claimed for runs in which no write on the motion sink fails (nowf) *)
+  if which =? 1 then negb (nowf st) || (S01 st && S02 (c_cfg c) st)
+  else if which =? 2 then negb (nowf st) || S02 (c_cfg c) st
+  else if which =? 3 then negb (nowf st) || S03 (c_cfg c) st
   else if which =? 4 then S04 (c_cfg c) (nowin c) st
   else if which =? 12 then S12 st && ((c_tail c <? 0) || S12_recovers (Z.to_nat (c_tail c)) st)
   else if which =? 13 then S13 (c_cfg c) st
